@@ -116,7 +116,14 @@ func NewEnv(w *World) *Env {
 // this date). It is not the kernel's wall clock, see vs.Epoch.
 var ConfigEpoch = time.Date(2030, 1, 1, 0, 0, 0, 0, time.UTC)
 
-func FixedTime() time.Time { return ConfigEpoch }
+// ConfigSkew is added to ConfigEpoch for the current case (C19 starts some runs just below a full minute).
+var ConfigSkew time.Duration
+
+// FixedTime is the clock the configurations report: ConfigEpoch (+ ConfigSkew) plus the virtual time that has
+// passed in the run - a clock that runs, only not the wall clock.
+//
+//go:norace
+func FixedTime() time.Time { return ConfigEpoch.Add(ConfigSkew + vs.Elapsed()) }
 
 // shortReader is a legal but awkward io.Reader: never more than 3 bytes per call. Requests of one byte go
 // through unchanged (DRand answers those without advancing, see DRand).
